@@ -88,6 +88,29 @@ def runBufFmt (cfg : String) (inp : List String) (obs : List String) : Option Ve
       s!"{r} {hexOfBytes t} {if buflen == 0 then 0 else 1} {if b.oob || b.uninit then 0 else 1}"
     pure { modelObs, rejects := c15 ++ c16, nontrivial := true,
            tags := [kind, if buflen == 0 then "len0" else if text.length + 1 == buflen then "truncated" else "fits", if exact.isNone then "nonfinite" else "finite"] }
+  | "R", [bits, oracle] | "r", [bits, oracle] => do
+    -- SCPI_ResultDouble / SCPI_ResultFloat: the text passes through the library's own scratch buffer (size regenerated
+    -- from parser.c), so a cut text is a violation here, not the caller's choice
+    let dbl := kind == "R"
+    let bits ← parseHexNat bits; let oracle ← unhex oracle
+    let prec := if dbl then 15 else 6
+    let exact := if dbl then exactOfBits bits 53 11 else exactOfBits bits 24 8
+    let scratch := if dbl then Gen.bufDouble else Gen.bufFloat
+    let c16 :=
+      (if ret != text.length then ["C16.result_return_value"] else []) ++
+      (match exact with
+        | none =>
+          let t := lowerBytes text
+          if t == Result.bytesOf "nan" ∨ t == Result.bytesOf "-nan" ∨ t == Result.bytesOf "inf" ∨ t == Result.bytesOf "-inf" then [] else ["C16.nonfinite_spelling"]
+        | some ex =>
+          if withinDigits text ex prec 1 (if custom then 1 else 2) then [] else
+            [if !custom then "C16.result_digits"
+             else if withinDigits text ex prec 3 1 ∧ prec ≥ 14 then "C16.custom_formatter_accumulated_error" else "C16.custom_formatter_digits"])
+    let modelObs :=
+      if custom then " ".intercalate obs else
+      let (b, r) := BufFmt.doubleToStr (BufFmt.Buf.fresh scratch) scratch oracle
+      s!"{r} {hexOfBytes (b.cstring.getD [])} 1 1"
+    pure { modelObs, rejects := c16, nontrivial := true, tags := [kind, if exact.isNone then "nonfinite" else "finite"] }
   | "e", [bits, buflen, prec, flags] => do
     let bits ← parseHexNat bits; let buflen ← buflen.toNat?; let prec ← prec.toNat?; let flags ← flags.toNat?
     let exact := exactOfBits bits 53 11
